@@ -392,6 +392,7 @@ func tokenize(s string) []string {
 // Standalone renders a self-contained script for the conjunction (used by the cross-check).
 func Standalone(conj []*Term) string {
 	var sb strings.Builder
+	sb.WriteString("(set-logic QF_BV)\n")
 	defined := map[int]bool{}
 	for _, c := range conj {
 		emitDefs(&sb, defined, c)
